@@ -125,8 +125,16 @@ func c14Case(o *Out, kind string, which int, viaYaml bool, wl, bl []string, prob
 			ih = bittorrent.InfoHashFromBytes(probe)
 		}
 		mk := func() (*bittorrent.AnnounceRequest, *bittorrent.AnnounceResponse) {
-			req := &bittorrent.AnnounceRequest{InfoHash: ih, Left: 1, NumWant: 5, Compact: true,
-				Peer: bittorrent.Peer{ID: pid, Port: 6881, IP: bittorrent.IP{IP: net.IP{10, 0, 0, 1}, AddressFamily: bittorrent.IPv4}}}
+			// the decision is about the client ID / infohash only: every other request field varies with the probe
+			// (event incl. stopped and completed, left, numwant, compact, port, address family)
+			v := int(probe[0]) + int(probe[len(probe)-1]) + len(probe)
+			ip := bittorrent.IP{IP: net.IP{10, 0, 0, 1}, AddressFamily: bittorrent.IPv4}
+			if v%3 == 0 {
+				ip = bittorrent.IP{IP: net.ParseIP("2001:db8::7"), AddressFamily: bittorrent.IPv6}
+			}
+			req := &bittorrent.AnnounceRequest{InfoHash: ih, Left: uint64(v % 2), NumWant: uint32(v % 7), Compact: v%5 != 0,
+				Event: []bittorrent.Event{bittorrent.None, bittorrent.Started, bittorrent.Stopped, bittorrent.Completed}[v%4],
+				Peer:  bittorrent.Peer{ID: pid, Port: uint16(6881 + v%3), IP: ip}}
 			resp := &bittorrent.AnnounceResponse{Compact: true, Interval: 30 * time.Minute, MinInterval: 15 * time.Minute}
 			return req, resp
 		}
